@@ -1,2 +1,12 @@
 #!/bin/sh
-exit 0
+# Offline setup: parse every specification with SANY, byte-compile the harness.
+set -e
+cd "$(dirname "$0")"
+/venv/bin/python -m compileall -q harness >/dev/null
+for f in spec/*.tla; do
+  case "$f" in spec/Trace_Model.tla) continue;; esac   # needs the per-run TraceTables module
+  out=$(cd spec && tla-sany "$(basename "$f")" 2>&1) || { echo "$out"; exit 1; }
+  echo "$out" | grep -q "Semantic errors\|Parse Error\|Fatal" && { echo "$out"; exit 1; }
+done
+mkdir -p evidence
+echo "setup ok"
